@@ -10,3 +10,4 @@ pub mod fuzzglue;
 pub mod fuzzdecode;
 pub mod collide;
 pub mod iterproto;
+pub mod onlymove;
